@@ -658,4 +658,19 @@ func init() {
 		rule: "part c04: mixed workloads (1-6 RPCs, all shapes, stalled consumers, handlers that run until cancelled, callers blocked in Header) with one termination cause (Close on either end, cancel/expiry of the opening context, Stop, carrier break at client end / server end / both) at a drawn frame boundary k; part c04_sweep: for each sampled workload the fault-free run is counted and EVERY cause is injected at EVERY delivered-frame boundary k in [0, F]; oracle: invariants of the final drained state (Done closed, Err nil iff clean, serving calls returned, every op returned, in-flight calls non-OK, handler contexts done, later RPC fails at once); non-trivial = at least one RPC was in flight when the fault struck"})
 }
 
+func init() {
+	register(&checkDef{prop: "C07", level: "fault_enumeration", parts: []part{
+		{name: "c07", gen: genC07, monitors: []Monitor{monC07}, labels: labelsC07, nontrivial: ntC07, quick: 1000, thorough: 25000},
+		{name: "c07_sweep", gen: genC07Base, expand: expandC07, monitors: []Monitor{monC07}, labels: labelsC07, nontrivial: ntC07, quick: 3, thorough: 60},
+	},
+		rule: "0-3 bystanders plus one victim RPC (any shape; handler that runs until cancelled, stalled consumers, own error status, caller blocked in Header) whose context is cancelled, or whose deadline expires, at a drawn delivered-frame boundary k (part c07) or at EVERY boundary k in [0, F] of sampled workloads for both kinds (part c07_sweep); the tape orders the cancel frame against the peer's close/data/window frames and late frames are delivered; oracle: same-step local release with the right status, handler released once the cancel frame is processed, exactly one legal outcome (complete success incl. trailers, cancellation status, or the handler's own status), bystanders and tunnel unaffected; non-trivial = the cancellation fell strictly inside the victim's frame sequence or raced with close_stream"})
+}
+
+func init() {
+	register(&checkDef{prop: "C10", parts: []part{
+		{name: "c10", gen: genC10, monitors: []Monitor{monC10}, labels: commonLabels, nontrivial: ntC10, quick: 1200, thorough: 30000},
+	},
+		rule: "0-4 in-flight RPCs of any shape in any phase (tape-positioned), InitiateShutdown (forward) or GracefulStop (reverse, 1 or 3 tunnels) at a drawn step, 0-4 RPCs attempted afterwards whose frames interleave with the in-flight ones, optionally Stop at a later drawn step; oracle per clause of the statement (refusal with Unavailable judged by when the server processed new_stream, in-flight results equal the no-shutdown model, tunnel up until they finish, GracefulStop/Stop return points); non-trivial = at least one RPC in flight at the shutdown step and at least one processed after it"})
+}
+
 var _ = strings.Join
